@@ -329,12 +329,71 @@ static vj::Value run_record(const vj::Value& c)
   return r;
 }
 
+// ---- Coloring objects built from explicit colour arrays (spec/AdjacencyColor.tla) ---------------------------------
+static bool coloring_is(const Coloring& col, const vj::Value& e, std::string& why, const std::string& what)
+{
+  IVec ec = e["col"].ints(); const long long encol = e["ncol"].as_int();
+  if((long long)col.get_num_nodes() != (long long)ec.size() || col.size() != ec.size()) { why = what + ": get_num_nodes() = " + std::to_string(col.get_num_nodes()); return false; }
+  if(col.empty() != ec.empty()) { why = what + ": empty()"; return false; }
+  if((long long)col.get_num_colors() != encol) { why = what + ": get_num_colors() = " + std::to_string(col.get_num_colors()) + " expected " + std::to_string(encol); return false; }
+  if(encol > 0 && (long long)col.get_max_color() != encol - 1) { why = what + ": get_max_color() = " + std::to_string(col.get_max_color()); return false; }
+  for(std::size_t i = 0; i < ec.size(); ++i)
+    if((long long)col.get_coloring()[i] != ec[i] || (long long)col[Index(i)] != ec[i]) { why = what + ": colour of node " + std::to_string(i) + " is " + std::to_string(col[Index(i)]); return false; }
+  return true;
+}
+
+static Coloring construct_coloring(const std::string& ctor, Index n, Index c, const XVec& colv)
+{
+  if(ctor == "default") return Coloring();
+  if(ctor == "vector") return Coloring(c, colv);
+  if(ctor == "alloc")
+  {
+    Coloring col(n, c);
+    for(Index i = 0; i < n; ++i) { if(i % 2) col[i] = colv[i]; else col.get_coloring()[i] = colv[i]; }
+    return col;
+  }
+  if(ctor == "array") { XVec tmp(colv); return Coloring(n, static_cast<Index*>(tmp.data())); }
+  throw std::runtime_error("coloring constructor " + ctor);
+}
+
+static vj::Value run_coloring(const vj::Value& c)
+{
+  const std::string op = c["op"].as_str(), ctor = c["ctor"].as_str();
+  XVec colv = to_idx(c["col"]);
+  std::string why;
+  Coloring col = construct_coloring(ctor, Index(c["n"].as_int()), Index(c["c"].as_int()), colv);
+  if(op == "inspect")
+  {
+    if(!coloring_is(col, c["exp"], why, "constructor " + ctor)) return vh::bad(why);
+    return vh::ok();
+  }
+  if(op == "clone")
+  {
+    Coloring c2 = col.clone();
+    if(!coloring_is(c2, c["exp"], why, "clone()")) return vh::bad(why);
+    Coloring c3(std::move(c2));
+    if(!coloring_is(c3, c["exp"], why, "move constructor")) return vh::bad(why);
+    return vh::ok();
+  }
+  if(op == "partition")
+  {
+    Graph pg = col.create_partition_graph();
+    vj::Value got = g_json(pg);
+    // every node once under its colour: the lists are compared as bags, the offsets exactly
+    if(!same_graph(got, c["exp"], false, why)) return vh::bad("create_partition_graph: " + why, c["exp"], got);
+    if(!coloring_is(col, c["obj"], why, "object after create_partition_graph")) return vh::bad(why);
+    return vh::ok();
+  }
+  return vh::bad("unknown coloring op " + op);
+}
+
 vj::Value run_case(const vj::Value& c)
 {
   const std::string h = c["h"].as_str();
   if(h == "g") return run_graph(c);
   if(h == "p") return run_perm(c);
   if(h == "v") return run_record(c);
+  if(h == "c") return run_coloring(c);
   return vh::bad("unknown case class " + h);
 }
 
